@@ -18,10 +18,10 @@ import (
 )
 
 type replayFile struct {
-	Harness string            `json:"harness"`
-	Label   string            `json:"label"`
-	Inputs  map[string]string `json:"inputs"`
-	Choices map[string]int    `json:"choices"`
+	Harness string                 `json:"harness"`
+	Label   string                 `json:"label"`
+	Inputs  map[string]string      `json:"inputs"`
+	Choices map[string]int         `json:"choices"`
 	Fns     map[string][][2]string `json:"fns"`
 }
 
@@ -194,6 +194,20 @@ func MutexHeld(m interface{}) bool {
 // MutexesHeld is the number of mutexes (of any package, exported or not) held at this point under the engine;
 // natively it is 0 (use MutexHeld / a timed Lock for the ones that can be named). (intercepted)
 func MutexesHeld() int { return 0 }
+
+// LazyGo switches the engine's treatment of go statements for the rest of the path: instead of running the new
+// goroutine at the spawn point it is queued and runs (to completion, oldest first) when a goroutine blocks - in
+// WaitGroup.Wait, on an empty channel, in a blocking select with no ready case, on a held mutex - or when the harness
+// returns. One schedule, like the default, but one in which producer / consumer pairs terminate. Natively a no-op.
+// (intercepted)
+func LazyGo() {}
+
+// RunGoroutines runs every queued goroutine now (engine, lazy mode); natively a no-op. (intercepted)
+func RunGoroutines() {}
+
+// KillGoroutines drops every queued goroutine (engine, lazy mode): the process they belonged to has died. Natively a
+// no-op. (intercepted)
+func KillGoroutines() {}
 
 func Event(s string)          { events[s]++ }
 func EventCount(s string) int { return events[s] }
